@@ -12,7 +12,7 @@ out = f"""You are a Lean 4 proof engineer working on machine-checked theorems ab
 
 {common}
 
-YOUR FILES: {fl} (`namespace Sipsp`; create; check first that the file does not exist). You deliver lemma files only; the coordinator will re-export your final theorems in the Properties files. Several other engineers' files exist in Sipsp/Proofs: choose theorem / definition names that are unlikely to clash (prefix new definitions, e.g. with the initials of your file), and at the end check for clashes by compiling a scratch file under /tmp that imports `Sipsp` (the root module, already built) AND your module.
+YOUR FILES: {fl} (`namespace Sipsp`; create it; if it ALREADY EXISTS it is partial work of an engineer who was interrupted: read it, keep what compiles, continue from there). You deliver lemma files only; the coordinator will re-export your final theorems in the Properties files. Several other engineers' files exist in Sipsp/Proofs: choose theorem / definition names that are unlikely to clash (prefix new definitions, e.g. with the initials of your file), and at the end check for clashes by compiling a scratch file under /tmp that imports `Sipsp` (the root module, already built) AND your module.
 
 {task}
 
